@@ -18,6 +18,8 @@ import XzVerif.Model.Vli
 import XzVerif.Model.Container
 import XzVerif.Model.IndexSpec
 import XzVerif.Lemmas.C04Rc
+import XzVerif.Lemmas.C04Walk
+import XzVerif.Lemmas.FileInfoSeek
 import XzVerif.Lemmas.C04Misc
 import XzVerif.Lemmas.C03Dict
 import XzVerif.Lemmas.C03Rc
@@ -199,17 +201,49 @@ theorem range_model_is_rangedec (rc : RangeDec.Rc) (p : Nat) (inp rest : List UI
   obtain ⟨h1, h2⟩ := normalizeL_bytes rc inp rc' rest h
   exact ⟨h1, h2, bitCore_range rc' p, directCore_range rc', by decide, by decide⟩
 
-/-- The same bound stated directly on the executable decoder model of b-c03 (`Lzma.decodeSymbol`, one symbol from
-    SEQ_IS_MATCH up to its output step): a symbol that completes reads at most LZMA_IN_REQUIRED bytes. NOT proved here:
-    what is missing is the link "the bits `decodeSymbol` decodes form one of `symbolShapes`" (a walk through its monadic
-    code); `in_required_20` above covers every such shape, `range_model_is_rangedec` ties the range arithmetic to the
-    primitives `decodeSymbol` is built from, and the observation engine watches the real fast loop under ASan with
-    exactly sized input buffers. (The end-of-payload marker's final normalisation is excluded exactly as in the C code,
-    which leaves the fast loop for it: `goto eopm`.) -/
-def in_required_20_statement : Prop :=
-  ∀ (s s' : Lzma.St) (eopmValid : Bool) (pend : Lzma.Pending),
-    253952 ≤ s.range → s.range < RangeDec.U32 → (∀ i, i < s.probs.size → RangeDec.ProbInv (s.probs.getD i 0)) →
-    Lzma.decodeSymbol eopmValid s = .ok pend s' → s'.inPos ≤ s.inPos + Gen.C04.LZMA_IN_REQUIRED
+/-- THE SAME BOUND ON THE EXECUTABLE DECODER MODEL of b-c03 (`Lzma.decodeSymbol`: one symbol from SEQ_IS_MATCH up to its
+    output step, with the bounds-checked `rc_*_safe` primitives). From any range a finished symbol or `rc_reset` leaves
+    (≥ 8192·31, < 2^32) and a probability array whose slots are in [31, 2017], a symbol decode that completes has consumed at
+    most LZMA_IN_REQUIRED = 20 input bytes; and it leaves a range and probabilities satisfying the same conditions, so the
+    bound holds for every symbol of a stream (`rc_reset` gives range 2^32 − 1, `lzma_decoder_reset` gives probabilities 1024).
+    Proof (Lemmas/C04Walk.lean): a walk through the monadic code of `decodeSymbol` showing that the bits it decodes form one of
+    the 203 `symbolShapes`, that range and cursor evolve exactly as `runR` says, and that every probability used is in
+    [31, 2017] — or is the 0 that the MODEL reads for an index outside its array, for which `rc_bit` decodes 1 and leaves the
+    range unchanged (no such index exists for valid lc/lp/pb: Props/C03 `prob_indices_in_bounds`); then `in_required_20`'s
+    budget argument (`symbol_shapes_ok`). No assumption on lc/lp/pb, state, dictionary or input.
+    (The end-of-payload marker's final normalisation is excluded exactly as in the C code, which leaves the fast loop for
+    it — `goto eopm`: that path does not return normally from `decodeSymbol`.) -/
+theorem in_required_20_decoder (s s' : Lzma.St) (eopmValid : Bool) (pend : Lzma.Pending)
+    (hlo : 253952 ≤ s.range) (hhi : s.range < RangeDec.U32)
+    (hp : ∀ i, i < s.probs.size → RangeDec.ProbInv (s.probs.getD i 0))
+    (h : Lzma.decodeSymbol eopmValid s = .ok pend s') :
+    s.inPos ≤ s'.inPos ∧ s'.inPos ≤ s.inPos + Gen.C04.LZMA_IN_REQUIRED
+    ∧ 253952 ≤ s'.range ∧ s'.range < RangeDec.U32
+    ∧ (∀ i, i < s'.probs.size → RangeDec.ProbInv (s'.probs.getD i 0)) :=
+  decodeSymbol_bytes symbol_shapes_ok eopmValid s s' pend hlo hhi hp h
+
+/-- Hence the C fast loop (the non-`_safe` macros, entered only while `rc_is_fast_allowed()`: more than LZMA_IN_REQUIRED
+    bytes remain) never reads at or past `in_size` while decoding a symbol: the cursor after the symbol is still inside
+    the input. -/
+theorem fast_loop_stays_in_input_decoder (s s' : Lzma.St) (eopmValid : Bool) (pend : Lzma.Pending)
+    (hlo : 253952 ≤ s.range) (hhi : s.range < RangeDec.U32)
+    (hp : ∀ i, i < s.probs.size → RangeDec.ProbInv (s.probs.getD i 0))
+    (hfast : fastAllowed (s.inp.size - s.inPos) Gen.C04.LZMA_IN_REQUIRED = true)
+    (h : Lzma.decodeSymbol eopmValid s = .ok pend s') :
+    s'.inPos < s.inp.size := by
+  have hb := (in_required_20_decoder s s' eopmValid pend hlo hhi hp h).2.1
+  unfold fastAllowed at hfast
+  split at hfast
+  · simp at hfast
+  · omega
+
+/-- non-vacuity of the hypotheses: the state after `rc_reset` + `lzma_decoder_reset` (range 2^32 − 1, all probabilities 1024) -/
+example : 253952 ≤ RangeDec.UINT32_MAX ∧ RangeDec.UINT32_MAX < RangeDec.U32
+    ∧ ∀ i, i < (Array.replicate (Lzma.probsSize 3 0) RangeDec.PROB_INIT).size →
+        RangeDec.ProbInv ((Array.replicate (Lzma.probsSize 3 0) RangeDec.PROB_INIT).getD i 0) := by
+  refine ⟨by decide, by decide, fun i hi => ?_⟩
+  simp only [Array.size_replicate] at hi
+  simp [Array.getD, hi, RangeDec.ProbInv, RangeDec.PROB_INIT]
 
 /-- non-vacuity: the longest path (match, 10-bit length, slot 63: 26 direct + 4 align bits) is in the grammar, and with
     the most range-shrinking choices it really reads 19 or 20 bytes -/
@@ -407,9 +441,10 @@ theorem ret_is_documented (code : InnerArgs → Resp) (strm : Stream) (action : 
 
 /-! ## file_info: seek requests -/
 
-/-- Every position the file-info decoder asks the application to seek to is inside the file: `file_target_pos`
-    starts at `file_size` and each assignment to it is a guarded subtraction (the one addition of 12 directly undoes
-    part of the subtraction before it), and both `seek_to_pos` call sites pass a value ≤ `file_target_pos`. -/
+/-- The `file_target_pos` arithmetic of the C code in isolation (local model of Model/C04Sym.lean; the statement on the
+    executable file-info model is `seek_within_file_model` below): `file_target_pos` starts at `file_size` and each
+    assignment to it is a guarded subtraction (the one addition of 12 directly undoes part of the subtraction before it),
+    and both `seek_to_pos` call sites pass a value ≤ `file_target_pos`. -/
 theorem seek_within_file (fileSize : Nat) (steps : List TargetStep) :
     ∀ t ∈ targetTrace fileSize steps, ∀ p ∈ seekTargets t, p ≤ fileSize := by
   intro t ht p hp
@@ -441,15 +476,28 @@ theorem reverse_seek_models_agree (st : Index.FI) :
   · simp only [h, if_false]
     trivial
 
-/-- The full statement about the file-info model (every seek it would request while walking a file lies inside the
-    file) cannot be phrased on `Index.streamLoop` as it stands, because that model reads the file array directly and
-    does not emit its seek requests; `seek_within_file` proves it for the `file_target_pos` arithmetic of the C code
-    (every guarded assignment, both call sites), and the observation engine checks `seek_pos ≤ file_size` on every
-    LZMA_SEEK_NEEDED of the real decoder. -/
-def seek_within_file_statement : Prop :=
-  ∀ (fileSize : Nat) (steps : List TargetStep), ∀ t ∈ targetTrace fileSize steps, ∀ p ∈ seekTargets t, p ≤ fileSize
+/-- THE FULL STATEMENT ON THE FILE-INFO MODEL of b-c13 (`Index.fileInfo`, Model/FileInfo.lean — the function the C13 driver
+    runs and compares with `lzma_file_info_decoder` on every check). `Index.fileInfoT` (Lemmas/FileInfoSeek.lean) is the same
+    code with the `seek_to_pos()` call sites made visible — `reverse_seek` in SEQ_PADDING_SEEK / SEQ_PADDING_DECODE / before
+    SEQ_HEADER_DECODE, and the seek to the start of the Index in SEQ_FOOTER — each request recorded as (position, number of
+    bytes then read from there: `temp_size` for `fill_temp`, `backward_size` for the Index).
+    For EVERY file content and memory limit: the traced decoder returns exactly what `fileInfo` returns, and every request
+    satisfies `position + length ≤ file_size` — no seek outside the file, no read past its end. -/
+theorem seek_within_file_model (memlimit : Nat) (file : Array UInt8) :
+    (Index.fileInfoT memlimit file).1 = Index.fileInfo memlimit file
+    ∧ ∀ q ∈ (Index.fileInfoT memlimit file).2, q.1 + q.2 ≤ file.size :=
+  ⟨Index.fileInfoT_fst memlimit file, Index.fileInfoT_seeks memlimit file⟩
 
-theorem seek_within_file_partial : seek_within_file_statement := fun fs steps => seek_within_file fs steps
+/-- the empty .xz file (`xz < /dev/null`, 32 bytes) -/
+def emptyXz : Array UInt8 :=
+  #[0xfd, 0x37, 0x7a, 0x58, 0x5a, 0x00, 0x00, 0x04, 0xe6, 0xd6, 0xb4, 0x46, 0x00, 0x00, 0x00, 0x00, 0x1c, 0xdf, 0x44, 0x21,
+    0x1f, 0xb6, 0xf3, 0x7d, 0x01, 0x00, 0x00, 0x00, 0x00, 0x04, 0x59, 0x5a]
+
+/-- non-vacuity: on the empty .xz file the decoder succeeds after ONE request — seek to 12, read the remaining 20 bytes
+    (Index + Stream Footer); on two such Streams concatenated, seek to 12 and read 52 bytes -/
+example : (Index.fileInfoT 1000000 emptyXz).2 = [(12, 20)] ∧ (Index.fileInfoT 1000000 emptyXz).1.1 = .streamEnd := by
+  decide +kernel
+example : (Index.fileInfoT 1000000 (emptyXz ++ emptyXz)).2 = [(12, 52)] := by decide +kernel
 
 /-- non-vacuity: a two-Stream walk (padding, footer, index, blocks, header of the second Stream, then the first) -/
 example : targetTrace 1000 [.padding 4 8, .footer, .index 24, .blocks 400, .headerBack, .headerDone, .footer, .index 24, .blocks 476]
